@@ -15,10 +15,12 @@ if ! git -C "$wt" apply "$src/patch.diff"; then echo "$name: patch does not appl
 (cd "$wt" && PYTHONPATH="$wt/Python" timeout 600 /venv/bin/python _demo.py > /tmp/seed_demo_$$.log 2>&1); d1=$?
 res="demo_unchanged=$d0 demo_changed=$d1"
 for id in "$@"; do
+  [ -f "/verif/evidence/$id.json" ] && cp "/verif/evidence/$id.json" "/tmp/seed_ev_$$_$id.json"   # the evidence file belongs to runs on /repo itself
   VERIF_REPO_PY="$wt/Python" /verif/check "$id" --tier "${TIER:-quick}" > "/tmp/seed_$$_$id.log" 2>&1
   r=$?
   cl=$(grep 'by clause' "/tmp/seed_$$_$id.log" | head -1)
   res="$res | $id exit=$r $cl"
+  [ -f "/tmp/seed_ev_$$_$id.json" ] && mv "/tmp/seed_ev_$$_$id.json" "/verif/evidence/$id.json"
   cp "/tmp/seed_$$_$id.log" "$out/check_$id.log"
   rm -f "/tmp/seed_$$_$id.log"
 done
